@@ -125,7 +125,10 @@ func c13TaintIsolation(c *Ctx) {
 // c13NoCacheTool: a no-cache target whose (only) output is a bin_output, and a cached dependant that calls it through
 // $(bin :tool). History: build; build (tool runs again, gen is restored); edit the tool's input; build (gen re-executes:
 // the tool it calls changed); build (gen restored). Both load_outputs modes.
-func c13NoCacheTool(c *Ctx) {
+func c13NoCacheTool(c *Ctx) { noCacheTool(c, "C13") }
+
+// noCacheTool: see c13NoCacheTool; the signatures carry the claiming property's id.
+func noCacheTool(c *Ctx, prop string) {
 	grog, err := vc.BuildGrog("grog", nil)
 	if err != nil {
 		c.R.BrokenCheck("%v", err)
@@ -171,23 +174,112 @@ func c13NoCacheTool(c *Ctx) {
 			replay := map[string]any{"history": history, "load_outputs": mode, "executed": got, "grog_output_tail": tail(rr.Output, 500)}
 			switch {
 			case rr.Exit != 0:
-				c.R.Violate(vc.Violation{Sig: "C13:no-cache-tool:build-fails", Detail: fmt.Sprintf("history %v (load_outputs=%s): grog exited %d: %s", history, mode, rr.Exit, tail(rr.Output, 300)), Replay: replay})
+				c.R.Violate(vc.Violation{Sig: prop + ":no-cache-tool:build-fails", Detail: fmt.Sprintf("history %v (load_outputs=%s): grog exited %d: %s", history, mode, rr.Exit, tail(rr.Output, 300)), Replay: replay})
 			case strings.Join(got, " ") != st.want:
-				sig := "C13:no-cache-tool:dependant-not-invalidated-although-the-tool-changed"
+				sig := prop + ":no-cache-tool:dependant-not-invalidated-although-the-tool-changed"
 				if len(got) > len(strings.Fields(st.want)) {
-					sig = "C13:dependant-or-clean-target-executed-although-nothing-changed://b:gen"
+					sig = prop + ":dependant-or-clean-target-executed-although-nothing-changed://b:gen"
 				} else if !strings.Contains(strings.Join(got, " "), "//b:tool") {
-					sig = "C13:no-cache-target-restored-instead-of-executed://b:tool"
+					sig = prop + ":no-cache-target-restored-instead-of-executed://b:tool"
 				}
 				c.R.Violate(vc.Violation{Sig: sig, Detail: fmt.Sprintf("history %v (load_outputs=%s): executed %v, expected [%s] (//b:tool is tagged no-cache, its output is a bin_output that //b:gen calls)", history, mode, got, st.want), Replay: replay})
 			case st.gen != "":
 				if b, _ := os.ReadFile(filepath.Join(box.WS(), "b/gen.txt")); string(b) != st.gen {
-					c.R.Violate(vc.Violation{Sig: "C13:no-cache-tool:dependant-output-stale", Detail: fmt.Sprintf("history %v (load_outputs=%s): b/gen.txt is %q, expected %q", history, mode, b, st.gen), Replay: replay})
+					c.R.Violate(vc.Violation{Sig: prop + ":no-cache-tool:dependant-output-stale", Detail: fmt.Sprintf("history %v (load_outputs=%s): b/gen.txt is %q, expected %q", history, mode, b, st.gen), Replay: replay})
 				}
 			}
 			c.R.AddCounts(1, 1, 1, 1)
 			c.R.Outcome(fmt.Sprintf("no-cache-tool|%s|%s|%v", mode, st.name, got))
 			c.R.Nontrivial("no-cache-tool|" + mode + "|" + strings.Join(history, ">"))
+		}
+		box.Remove()
+	}
+}
+
+// c13ThroughAlias: the dependants reach the re-executed target through an ALIAS. //b:stamp is tagged no-cache, //b:gen is
+// cached and gets tainted; both copy an external value (not an input: their change hash stays the same, their outputs
+// change only when the value does). //b:use_stamp and //b:use_gen depend on aliases of them, //b:direct on //b:stamp
+// itself. History: build (value 1); build (value 2); taint gen, build (value 3); build (value unchanged). Dependants are
+// executed exactly when the output of the re-executed target changed, and what they copy is the current value.
+func c13ThroughAlias(c *Ctx) {
+	grog, err := vc.BuildGrog("grog", nil)
+	if err != nil {
+		c.R.BrokenCheck("%v", err)
+		return
+	}
+	base, cleanup := scratchBase(c, "c13alias")
+	defer cleanup()
+	src := &hist.Source{Files: map[string]hist.File{"b/in.txt": {Content: "in"}}}
+	src.Targets = append(src.Targets,
+		hist.Target{Pkg: "b", Name: "stamp", Tags: []string{"no-cache"}, Inputs: []string{"in.txt"}, Outputs: []string{"stamp.txt"}, Command: traceStart + "\ncat \"$VMARK/n\" > stamp.txt"},
+		hist.Target{Pkg: "b", Name: "gen", Inputs: []string{"in.txt"}, Outputs: []string{"gen.txt"}, Command: traceStart + "\ncat \"$VMARK/n\" > gen.txt"},
+		hist.Target{Pkg: "b", Name: "use_stamp", Deps: []string{":al_stamp"}, Outputs: []string{"use_stamp.txt"}, Command: traceStart + "\ncat stamp.txt > use_stamp.txt"},
+		hist.Target{Pkg: "b", Name: "use_gen", Deps: []string{":al_gen"}, Outputs: []string{"use_gen.txt"}, Command: traceStart + "\ncat gen.txt > use_gen.txt"},
+		hist.Target{Pkg: "b", Name: "direct", Deps: []string{":stamp"}, Outputs: []string{"direct.txt"}, Command: traceStart + "\ncat stamp.txt > direct.txt"})
+	src.Aliases = append(src.Aliases, hist.Alias{Pkg: "b", Name: "al_stamp", Actual: ":stamp"}, hist.Alias{Pkg: "b", Name: "al_gen", Actual: ":gen"})
+	type step struct {
+		name  string
+		value string
+		taint bool
+		want  string
+	}
+	steps := []step{
+		{"build (external value 1)", "1", false, "//b:direct //b:gen //b:stamp //b:use_gen //b:use_stamp"},
+		{"external value 2; build", "2", false, "//b:direct //b:stamp //b:use_stamp"},
+		{"external value 3; grog taint //b:gen; build", "3", true, "//b:direct //b:gen //b:stamp //b:use_gen //b:use_stamp"},
+		{"build (external value unchanged)", "3", false, "//b:stamp"},
+	}
+	outOf := map[string]string{"//b:stamp": "b/stamp.txt", "//b:gen": "b/gen.txt", "//b:use_stamp": "b/use_stamp.txt", "//b:use_gen": "b/use_gen.txt", "//b:direct": "b/direct.txt"}
+	for _, mode := range []string{"all", "minimal"} {
+		box, err := hist.NewBox(base)
+		if err != nil {
+			c.R.BrokenCheck("%v", err)
+			return
+		}
+		src.Materialize(box.WS(), nil)
+		marks := filepath.Join(box.Dir, "marks")
+		os.MkdirAll(marks, 0o755)
+		env := map[string]string{"VMARK": marks}
+		var history []string
+		for _, st := range steps {
+			history = append(history, st.name)
+			os.WriteFile(filepath.Join(marks, "n"), []byte(st.value), 0o644)
+			if st.taint {
+				if r := box.Run(grog, hist.RunOpts{Args: []string{"taint", "//b:gen"}, Env: env}); r.Exit != 0 {
+					c.R.Violate(vc.Violation{Sig: "C13:through-alias:taint-fails", Detail: fmt.Sprintf("grog taint //b:gen exited %d: %s", r.Exit, tail(r.Output, 300)), Replay: map[string]any{"history": history}})
+					break
+				}
+			}
+			rr := box.Run(grog, hist.RunOpts{Args: []string{"build", "//...", "--load-outputs=" + mode}, Env: env, Ceiling: 60e9})
+			got := append([]string{}, rr.Started()...)
+			sort.Strings(got)
+			replay := map[string]any{"history": history, "load_outputs": mode, "executed": got, "grog_output_tail": tail(rr.Output, 500)}
+			bad := false
+			switch {
+			case rr.Exit != 0:
+				c.R.Violate(vc.Violation{Sig: "C13:through-alias:build-fails", Detail: fmt.Sprintf("history %v (load_outputs=%s): grog exited %d: %s", history, mode, rr.Exit, tail(rr.Output, 300)), Replay: replay})
+				bad = true
+			case strings.Join(got, " ") != st.want:
+				sig := "C13:through-alias:dependant-not-invalidated-although-the-re-executed-target's-output-changed"
+				if len(got) > len(strings.Fields(st.want)) {
+					sig = "C13:through-alias:dependant-executed-although-the-re-executed-target's-output-did-not-change"
+				}
+				c.R.Violate(vc.Violation{Sig: sig, Detail: fmt.Sprintf("history %v (load_outputs=%s): executed %v, expected [%s] (//b:use_stamp and //b:use_gen depend on aliases of the no-cache target //b:stamp and the tainted target //b:gen)", history, mode, got, st.want), Replay: replay})
+				bad = true
+			default:
+				for _, t := range got {
+					if b, _ := os.ReadFile(filepath.Join(box.WS(), outOf[t])); string(b) != st.value {
+						c.R.Violate(vc.Violation{Sig: "C13:through-alias:executed-target-has-stale-content", Detail: fmt.Sprintf("history %v (load_outputs=%s): %s is %q after %s was executed, expected %q", history, mode, outOf[t], b, t, st.value), Replay: replay})
+						bad = true
+					}
+				}
+			}
+			c.R.AddCounts(1, 1, 1, 1)
+			c.R.Outcome(fmt.Sprintf("through-alias|%s|%s|%v", mode, st.name, got))
+			c.R.Nontrivial("through-alias|" + mode + "|" + strings.Join(history, ">"))
+			if bad {
+				break
+			}
 		}
 		box.Remove()
 	}
